@@ -4,7 +4,7 @@ import vlib
 from props.common import TRUSTED_BASE, ASSUMPTIONS
 
 ID = "C02"
-LEAN_MODULES = ["LexVerif.Props.C02"]
+LEAN_MODULES = ["LexVerif.Props.C02", "LexVerif.Props.RoundNE"]
 GEN = []
 TRUSTED = TRUSTED_BASE + [
     "Dragonbox / Grisu correctness for all inputs is NOT proved in Lean (research-level); proved: the oracle Spec.shortest "
@@ -15,6 +15,11 @@ RULE = ("G-bits: every binade x {min, min+1, max-1, max, half, random}, all subn
         "(8.55e21 family), random patterns, signed zeros, specials. Each output is compared byte-for-byte with "
         "Spec.shortest + formatting model (non-compact) and re-parsed exactly by the oracle (round trip, digit count). "
         "non-trivial = finite non-zero value; distinct = distinct bit patterns")
+
+
+TECHNIQUE = 'Lean 4 proof (Spec.shortest round-trips, is minimal and closest; formatting-layer model) + byte-exact correspondence and exact re-parse of every output'
+LEVEL_TEXT = 'Proved in Lean for all floats: the oracle Spec.shortest returns decimals that round-trip (via roundNE), have the fewest digits and are closest; the search always terminates within its fuel. The Dragonbox and Grisu implementations are NOT proved; every implementation output on the G-bits stream is compared byte-for-byte with oracle+formatting model (non-compact) and re-parsed exactly (round trip and <=17/9 digits, all builds).'
+LEVEL_NOTE = 'Trusted: Lean kernel; rustc; differential harness and generators. Dragonbox/Grisu control flow is not modelled in Lean yet; write-side cache tables are tied by the R dump (Props/TablesWrite once merged).'
 
 
 def feature_sets(tier):
